@@ -80,7 +80,9 @@ Section Statements.
 
   (* The final forecaster is only ever fitted or updated with data in the transformed
      representation: after ANY history its state is the one it reaches when run alone on
-     fwd(chain, y) and updated with fwd(chain as updated so far, batch) for every batch. *)
+     fwd(chain, y) and updated with fwd(chain as updated so far, batch) for every non-empty batch
+     (pipe_hist drops empty batches: the pipeline returns before calling anything, see
+     C09_pipeline_empty_batch_is_noop). *)
   Theorem C09_pipeline_final_only_sees_transformed : forall ts f y fh ups,
     exists fs0, fitted_chain' ts y fs0 (fwd' fs0 y) /\
       state' (Pipe' ts f) y fh ups =
@@ -91,10 +93,16 @@ Section Statements.
 
   (* ... and on the calls: an update of the pipeline sends transformer events only, followed by
      exactly the calls of final.update(fwd(updated chain, batch)). *)
-  Theorem C09_pipeline_update_calls : forall b fs s y up,
+  Theorem C09_pipeline_update_calls : forall b fs s y up, y <> [] ->
     exists tc, (forall e, In e tc -> exists g z, e = ETransform g z \/ e = ETUpdate g z up) /\
       snd (update' (SPipe' b fs s) y up) = tc ++ snd (update' s (fwd' (upd_spec' up fs y) y) up).
   Proof. exact (pipeline_update_calls leaf lpar lfit tr tpar tupd tapp thasupd reg rpar). Qed.
+
+  (* the empty-batch rule of TransformedTargetForecaster.update: no inner estimator is called and
+     nothing changes (the own data ignore an empty batch as well) *)
+  Theorem C09_pipeline_empty_batch_is_noop : forall b fs s up,
+    update' (SPipe' b fs s) [] up = (SPipe' b fs s, []).
+  Proof. exact (pipeline_empty_batch_is_noop leaf lpar lfit tr tpar tupd tapp thasupd reg rpar). Qed.
 
   (* each pipeline step is updated with the batch as transformed by the (updated) steps before it *)
   Theorem C09_pipeline_step_receives_running_transform : forall up fs y i g t p,
@@ -176,6 +184,7 @@ Print Assumptions C09_ensemble_members_independent.
 Print Assumptions C09_pipeline_is_chain.
 Print Assumptions C09_pipeline_final_only_sees_transformed.
 Print Assumptions C09_pipeline_update_calls.
+Print Assumptions C09_pipeline_empty_batch_is_noop.
 Print Assumptions C09_pipeline_step_receives_running_transform.
 Print Assumptions C09_multiplex_is_selected.
 Print Assumptions C09_multiplex_state.
